@@ -2,7 +2,11 @@ package main
 
 import (
 	"fmt"
+	"go/token"
+	"go/types"
 	"strings"
+
+	"golang.org/x/tools/go/ssa"
 )
 
 // immutableComps: heap components of fields declared `immutable T.f` (never written after construction).
@@ -92,5 +96,37 @@ func init() {
 		comp := flagComp(x.Args[0].Name)
 		e.vc.regComp(comp, "Bool")
 		return Bound{V: Val{e.vc.get(e.state, comp), "Bool"}, T: nil}, nil
+	}
+}
+
+// siteDeleteUser: `site delete <Type.field | map type> requires <expr>` with `key` bound to the deleted key
+func (f *Frame) siteDeleteUser(c *ssa.CallCommon, h, k Val, pos token.Pos) {
+	rc := f.rootContract()
+	if len(rc.Sites) == 0 {
+		return
+	}
+	fieldPat := ""
+	if u, ok := c.Args[0].(*ssa.UnOp); ok {
+		if fa, ok := u.X.(*ssa.FieldAddr); ok {
+			if nt, ok := fa.X.Type().Underlying().(*types.Pointer).Elem().(*types.Named); ok {
+				fieldPat = nt.Obj().Name() + "." + fieldName(fa)
+			}
+		}
+	}
+	typePat := strings.ReplaceAll(types.TypeString(c.Args[0].Type(), func(p *types.Package) string { return "" }), " ", "")
+	for _, s := range rc.Sites {
+		if s.Kind != "delete" || (s.Pattern != fieldPat && s.Pattern != typePat) {
+			continue
+		}
+		env := f.envAt(f.cur, nil)
+		env.vars["key"] = Bound{V: k, T: c.Args[1].Type()}
+		env.vars["themap"] = Bound{V: h, T: c.Args[0].Type()}
+		t, err := env.evalBool(s.Expr)
+		if err != nil {
+			f.vc.unbound = append(f.vc.unbound, fmt.Sprintf("%s: site delete %s: %v", f.key, s.Pattern, err))
+			continue
+		}
+		lbl := f.label("site", "delete:"+s.Pattern+":"+s.Label)
+		f.assertObl("site", lbl, s.Tags, f.guard, t, f.p.posString(pos))
 	}
 }
